@@ -6,6 +6,16 @@
   produce a cell value outside the range spanned by the previous values and the Dirichlet data
   (the range being extended by `0` when a sink `β > 0` is present) — for every time step,
   coefficient contrast, spacing and grid class.
+
+  B  `row_structure`       one interior row is an M-matrix row with sum `alpha/dt + β`
+  C  `max_principle_cell`  the row maximum lemma applied to that row
+  D  `ghost_*`             what the model's boundary rows say about the ghost values
+                           (periodic: for arbitrary, also unequal, end cells)
+  E  `max_principle`, `min_principle`, `range_preserved`, `nonneg_preserved`, `steps`
+                           on an abstract finite cell set with tied ghosts (`IsStep`)
+  E′ `*_solves`, `solution_unique`
+                           the same for solutions of the assembled system (`Solves`)
+  F  non-vacuity examples, and `sink_hull_counterexample` (why 0 joins the hull when `β > 0`)
 -/
 import PyFV.Lemmas.MMatrix
 import PyFV.Props.Examples
@@ -473,6 +483,37 @@ example (D : FaceFld ℚ) (v : ℚ) :
       split_ifs <;>
         simp [bcRowLo, bcRowHi, BCs.periodicDir, Row.app_two, loCellCoef, loGhostCoef,
           hiCellCoef, hiGhostCoef]
+
+/-- the cell set is not empty -/
+example (k : Kind) : (1, 1, 1) ∈ (Examples.mesh k).cells := by
+  rw [mem_cells_iff _ (Examples.mesh_WF k)]
+  refine ⟨Examples.interior_111 k, Nat.le_add_left _ _, ?_, ?_⟩ <;>
+  · split_ifs
+    · exact Nat.le_add_left _ _
+    · rfl
+
+/-- **Why the hull must contain 0 when there is a sink.**  The literal reading "the new values
+    stay between the minimum and maximum of the old values" is false for `β > 0`: with
+    `old ≡ 1`, `β ≡ 1`, `alpha ≡ 1`, `dt = 1/10`, no flux, the step gives `x ≡ 10/11 < 1`.
+    (So `min_principle` needs `Mn ≤ 0` in the presence of a sink.) -/
+theorem sink_hull_counterexample :
+    ∃ x : CellFld ℚ,
+      IsStep (Examples.mesh .cart1) (Examples.mesh .cart1).cells (fun _ _ => 1) (fun _ _ => 0)
+        (fun _ => 1) (fun _ => 1) (1/10) (fun _ => True) (fun _ => 1) x ∧
+      ∀ c ∈ (Examples.mesh .cart1).cells, x c < 1 := by
+  refine ⟨fun _ => 10/11, ?_, fun _ _ => by norm_num⟩
+  exact
+    { int := fun c hc => Mesh.interior_of_mem_cells (Examples.mesh_WF _) hc
+      D0 := fun _ _ => zero_le_one
+      div0 := fun c _ => divergence_zero _ c
+      β0 := fun _ _ => zero_le_one
+      α0 := fun _ _ => zero_lt_one
+      dt0 := by norm_num
+      row := fun c hc => by
+        rw [St7.app_const, stepRow_total _ (Examples.mesh_WF _) _ _ _ _ _ _
+          (Mesh.interior_of_mem_cells (Examples.mesh_WF _) hc), divergence_zero, stepRhs_eq]
+        norm_num
+      nbr := fun _ _ _ _ _ => Or.inr (Or.inl rfl) }
 
 /-- periodic directions (any end cells) and Dirichlet faces are admissible too -/
 example (k : Kind) (v : ℚ) :
